@@ -36,7 +36,7 @@ def node_model(t):
 
 def node_model_hashed(t):
     mres, (h, an), mobs = t
-    return (C.norm(C.dec_result(mres)), (h, tuple(sorted(set(C.dec_str(n) for n in an)))), C.norm(sorted(C.dec_observe(mobs).items())))
+    return (C.norm(C.dec_result(mres)), (C.unlimbs(h), tuple(sorted(set(C.dec_str(n) for n in an)))), C.norm(sorted(C.dec_observe(mobs).items())))
 
 
 def hashed(node):
